@@ -372,9 +372,27 @@ class SymDatetime(_dt.datetime):
     def __ge__(self, o): return self._ts >= self._o(o)
     def __hash__(self): return hash(concretize(self._ts))
     def isoformat(self, *a, **k): raise SxUnsupported("isoformat of a symbolic datetime")
+
+    def __sub__(self, o):
+        if isinstance(o, _dt.datetime):
+            return SymTimedelta(self._ts - self._o(o))
+        raise SxUnsupported("symbolic datetime minus a timedelta")
+
+    def __rsub__(self, o):
+        if isinstance(o, _dt.datetime):
+            return SymTimedelta(self._o(o) - self._ts)
+        raise SxUnsupported("datetime arithmetic")
     def __str__(self): return "<symdatetime>"
     __repr__ = __str__
     def __format__(self, spec): return "<symdatetime>"
+
+
+class SymTimedelta:
+    def __init__(self, secs):
+        self._s = secs
+
+    def total_seconds(self):
+        return self._s
 
 
 def _m_fromtimestamp(ts, tz=None):
@@ -492,9 +510,9 @@ class SymHash:
         return h
 
     def digest(self):
-        if all(type(i) is int for i in self._items):
-            return hashlib.new(self.name, bytes(self._items)).digest()
         real = (lambda d, n=self.name: hashlib.new(n, d).digest())
+        if all(type(i) is int for i in self._items) and (core.CUR is None or not core.CUR.active or not TRACK_CONCRETE_HASHES):
+            return real(bytes(self._items))
         return hash_uf(self.name, self.digest_size, real)(mk_bytes(self._items))
 
     def hexdigest(self):
@@ -618,8 +636,13 @@ for _n in ("sha256", "sha1", "sha512", "sha384", "sha224", "md5", "sha3_256", "s
     MODELS[getattr(hashlib, _n)] = _hash_ctor(_n)
 
 # always dispatched to the model (no symbolic argument needed to trigger)
+TRACK_CONCRETE_HASHES = True   # concrete digests computed on a path are registered with the UF of their algorithm
 ALWAYS = {io.BytesIO: _m_BytesIO, secrets.randbelow: _m_randbelow, secrets.token_bytes: _m_token_bytes,
           secrets.randbits: _m_randbits, os.urandom: _m_token_bytes}
+
+for _n in ("sha256", "sha1", "sha512"):
+    ALWAYS[getattr(hashlib, _n)] = MODELS[getattr(hashlib, _n)]
+ALWAYS[hashlib.new] = _m_hashlib_new
 
 _BUILTIN_METHOD = type(b"".join)
 STUBS: dict = {}  # harness-installed: callable -> replacement (hash / EC / randomness stubs)
